@@ -1102,7 +1102,16 @@ def gen_history(W: World, G: TyGen, rng, bases):
                 mask = [rng.random() < 0.5 for _ in range(n)]
                 if not any(mask):
                     mask[rng.randrange(n)] = True
-            ops.append(('p', i, mask))
+            # the fixed arguments are values of the declared parameter types (the function conversion rules are
+            # applied to them when the partial application is evaluated); where none can be generated the position
+            # stays a placeholder
+            vals = []
+            for j, m in enumerate(mask):
+                v = None if m else value_of_type(W, impl[i][0][j], rng.randrange(4))
+                if v is None:
+                    mask[j] = True
+                vals.append(v)
+            ops.append(('p', i, mask, vals))
             k = sum(mask)
             impl.append(([impl[i][0][j] for j, m in enumerate(mask) if m], impl[i][1]))
             first_k.append((impl[i][0][:k], impl[i][1]))
@@ -1131,8 +1140,12 @@ def gen_history(W: World, G: TyGen, rng, bases):
     return src, asts, ops, parent
 
 
-def hist_partial_expr(mask) -> str:
-    return '$f(' + ', '.join('?' if m else '1' for m in mask) + ')'
+def hist_partial_expr(mask, prefix='b') -> str:
+    return '$f(' + ', '.join('?' if m else f'${prefix}{j}' for j, m in enumerate(mask)) + ')'
+
+
+def hist_partial_vars(mask, vals, prefix='b') -> dict:
+    return {f'{prefix}{j}': (v if len(v) != 1 else v[0]) for j, (m, v) in enumerate(zip(mask, vals)) if not m}
 
 
 def run_history_impl(W: World, src, ops, xsd11=0):
@@ -1144,8 +1157,8 @@ def run_history_impl(W: World, src, ops, xsd11=0):
         f = P.parse(src).evaluate(ctx())
         return f[0] if isinstance(f, list) else f
 
-    def partial(f, mask):
-        g = P.parse(hist_partial_expr(mask)).evaluate(ctx(variables={'f': f}))
+    def partial(f, mask, vals):
+        g = P.parse(hist_partial_expr(mask)).evaluate(ctx(variables=dict(hist_partial_vars(mask, vals), f=f)))
         return g[0] if isinstance(g, list) and len(g) == 1 else g
 
     def judge(kind, item, ty):
@@ -1166,10 +1179,10 @@ def run_history_impl(W: World, src, ops, xsd11=0):
     for op in ops:
         if op[0] == 'p':
             try:
-                pool.append(partial(pool[op[1]], op[2]))
+                pool.append(partial(pool[op[1]], op[2], op[3]))
             except Exception as e:
                 return None, None, err_text(e)
-            parent.append((op[1], op[2]))
+            parent.append((op[1], op[2], op[3]))
             out.append(None)
             fresh.append(None)
         else:
@@ -1177,7 +1190,7 @@ def run_history_impl(W: World, src, ops, xsd11=0):
             out.append(judge(kind, pool[i], ty))
 
             def rebuild(j):                     # a fresh item with the same derivation and no judgement history
-                return base() if parent[j] is None else partial(rebuild(parent[j][0]), parent[j][1])
+                return base() if parent[j] is None else partial(rebuild(parent[j][0]), parent[j][1], parent[j][2])
             try:
                 fresh.append(judge(kind, rebuild(i), ty))
             except Exception as e:
@@ -1200,12 +1213,15 @@ def single_expression(src, ops, parent_of):
     """the `instance of` judgements of the history as ONE XPath expression on one bound item:
     let $f := <src> return (j1, j2, ...); partial applications are spelled where they are judged"""
     exprs = ['$f']
-    for op in ops:
+    variables = {}
+    for k, op in enumerate(ops):
         if op[0] == 'p':
-            exprs.append('(' + exprs[op[1]] + ')(' + ', '.join('?' if m else '1' for m in op[2]) + ')')
+            exprs.append('(' + exprs[op[1]] + ')(' +
+                         ', '.join('?' if m else f'$b{k}_{j}' for j, m in enumerate(op[2])) + ')')
+            variables.update(hist_partial_vars(op[2], op[3], prefix=f'b{k}_'))
     js = [(k, op) for k, op in enumerate(ops) if op[0] == 'j' and op[1] != 'ja']
     body = ', '.join(f'(({exprs[op[2]]}) instance of {render(op[3])})' for _, op in js)
-    return f'let $f := {src} return ({body})', [k for k, _ in js]
+    return f'let $f := {src} return ({body})', [k for k, _ in js], variables
 
 
 def histories(run: Run, W: World, G: TyGen):
@@ -1229,7 +1245,7 @@ def histories(run: Run, W: World, G: TyGen):
         t3 = ('F', list(sub3[1][:-1]), sub3[1][-1])
         t1 = ('F', [sub3[1][0]], sub3[1][-1])
         for kind in ('ji', 'jt', 'jm'):
-            hs.insert(0, (sub3[0], sub3[1], [('j', kind, 0, t3), ('p', 0, [True, False, False]), ('j', kind, 1, t1),
+            hs.insert(0, (sub3[0], sub3[1], [('j', kind, 0, t3), ('p', 0, [True, False, False], [None, [1.0], [2.0]]), ('j', kind, 1, t1),
                                              ('j', kind, 1, t3), ('j', kind, 0, t3)], None))
     lines = [history_line(asts, ops, inline=src.startswith('function(')) for src, asts, ops, _ in hs]
     answers = run.driver('C18', lines)
@@ -1273,10 +1289,10 @@ def histories(run: Run, W: World, G: TyGen):
                 run.disagree(Disagreement(dict(case, fresh=fresh[k]), got[k], None, fresh[k], what='history-dependence',
                                           site='XPathFunction (state kept on the token)', tags=[]))
         # the same judgements inside one expression on one bound item
-        expr, idx = single_expression(src, ops, None)
+        expr, idx, evars = single_expression(src, ops, None)
         if idx:
             try:
-                res = W.P.parse(expr).evaluate(W.XPathContext(W.root1))
+                res = W.P.parse(expr).evaluate(W.XPathContext(W.root1, variables=evars))
                 res = res if isinstance(res, list) else [res]
                 res = ['T' if r is True else 'F' if r is False else f'?{r!r}' for r in res]
             except Exception as ex:
@@ -1298,7 +1314,7 @@ def histories(run: Run, W: World, G: TyGen):
 
 def describe_op(op) -> str:
     if op[0] == 'p':
-        return f'item{op[1]}(' + ', '.join('?' if m else '1' for m in op[2]) + ') -> new item'
+        return f'item{op[1]}(' + ', '.join('?' if m else repr(v)[:20] for m, v in zip(op[2], op[3])) + ') -> new item'
     kind = {'jm': 'match_sequence_type', 'ji': 'instance of', 'jt': 'treat as', 'ja': 'passed to a parameter of type'}[op[1]]
     return f'item{op[2]} {kind} {render(op[3])}'
 
